@@ -9,9 +9,9 @@ import OjgVerif.JPath.LemmasRfc
   predicate and say nothing about what a script means. What a script means is `JPath/FilterSpec.lean` (the
   documented script semantics, evaluated in Lean: exact int/float comparison, a bare path is an existence
   test, `$` is the query argument wherever it stands); that Get keeps exactly the elements on which the script
-  is true in that sense is decided by the run (harness + driver), not by a theorem here. One place where it
-  does not: a `$` inside a filter nested in a script's own path (known finding C05-nested-filter-root, checked
-  example at the end of FilterSpec.lean).
+  is true in that sense is decided by the run (harness + driver), not by a theorem here. (Before 22c4424 there
+  was one place where it did not: a `$` inside a filter nested in a script's own path, repaired finding
+  C05-nested-filter-root; the old and the documented reading are the last example of FilterSpec.lean.)
 * Two denotations: `evalRfc` — the **documented** semantics (slices per RFC 9535 §2.3.4.2, transcribed in
   `Spec.lean` from the RFC) — and `eval`, the reading the code implements, which differs from it only for
   slices with a negative step outside `sliceIdx_eq_rfc_neg` (absent start or end, start outside `-n ≤ · < n`).
